@@ -13,7 +13,7 @@ def run(tier, seed):
         "parses share nothing else. (2) Strong invariant SI: every store to self.__cache__ in getRules/__compile__ publishes None or a local table that "
         "no later statement mutates, and nothing mutates through the field or an alias of it - so no call can observe a half-initialised chain. "
         "(3) The published value is the complete table: __compile__'s postcondition cache[c] == Filter(rules, c) for every c, and getRules returns Filter(rules, chain) under RI (pyvc). Composition (Owicki-Gries: reads of __cache__ yield None or the unique valid value at any interleaving) is not machine-checked.")
-    rep.trusted_base = ["vf/frame.py region table and publication dataflow", "a store/load of one attribute is atomic under the GIL"]
-    rep.assumptions = ["configuration is not mutated concurrently (the property's own hypothesis)", "calls into mdurl/re/functools.cache are atomic and content-pure",
+    rep.trusted_base += ["vf/frame.py region table and publication dataflow", "a store/load of one attribute is atomic under the GIL"]
+    rep.assumptions += ["configuration is not mutated concurrently (the property's own hypothesis)", "calls into mdurl/re/functools.cache are atomic and content-pure",
                        "Owicki-Gries soundness (composition step, not machine-checked)"]
     return rep
